@@ -170,7 +170,8 @@ def build(env, spec):
         # are generated): bounded initial gradient, metric = decrease of the function value
         xs = x0
         g_init, fs = F.oracle(x0)
-        c0 = (g_init ** 2 <= R)
+        # 'negative': the initial gradient is bounded from BELOW and the metric is f(x_n) - f(x0): a negative optimum
+        c0 = (g_init ** 2 >= R) if spec.get('negative') else (g_init ** 2 <= R)
     m.points['xs'] = xs
     pep.set_initial_condition(c0)
     m.constraints.append(c0)
@@ -271,6 +272,8 @@ def build(env, spec):
             m.lmis.append(pm)
     # metrics
     if fx is not None and spec.get('stationary', True):
+        met = fx - fs
+    elif fx is not None and spec.get('negative'):
         met = fx - fs
     elif fx is not None:
         met = fs - fx
